@@ -185,6 +185,18 @@ func c15RetryAgreement(e *Env) {
 				}
 			}
 			if retry == nil {
+				// no repetition of the same call: a call of a sibling with the same signature in the retry arm IS the retry
+				// (Set… for Add… or the reverse) and disagrees with the first attempt
+				f1 := core.StaticFn(first)
+				for _, in := range i.Block().Succs[0].Instrs {
+					if c2, ok := in.(*ssa.Call); ok && c2 != first && f1 != nil {
+						if f2 := core.StaticFn(c2); f2 != nil && f2.Pkg == f1.Pkg && types.Identical(f1.Signature, f2.Signature) {
+							retry = c2
+						}
+					}
+				}
+			}
+			if retry == nil {
 				continue
 			}
 			n++
